@@ -228,7 +228,8 @@ class SolveSeam:
     def record_residual(self, x, b):
         obj = self.obj
         try:
-            A = obj.fully_reduced_matrix if obj.formulation == "pressure" else self._matrix_full
+            A = (obj.fully_reduced_matrix if obj.formulation == "pressure" else
+                 obj.reduced_matrix if obj.formulation == "flux_reduced" else self._matrix_full)
             r = float(np.max(np.abs(A @ x - b))) if np.all(np.isfinite(x)) else float("inf")
             nb = float(np.max(np.abs(b)))
             self.rel_residuals.append(r / nb if nb > 0 else (0.0 if r == 0 else float("inf")))
@@ -348,7 +349,27 @@ def make_ref(cfg) -> RefFV:
 
 
 class RunResult:
-    __slots__ = ("ret", "exc", "seam", "obj", "warned", "clock", "exc_injected")
+    __slots__ = ("ret", "exc", "seam", "obj", "warned", "clock", "exc_injected", "exc_site")
+
+
+def _raise_site(e) -> str:
+    """Where in the library's _solve the exception left the iteration: 'final-pressure-solve' if the raising statement
+    of Bregman's _solve lies behind the comment that opens the pressure recovery (which is outside the loop's handler)."""
+    try:
+        import inspect
+        tb = e.__traceback__
+        site = "other"
+        while tb is not None:
+            co = tb.tb_frame.f_code
+            if co.co_name == "_solve" and co.co_filename.endswith("wasserstein.py"):
+                src, first = inspect.getsourcelines(co)
+                marks = [first + k for k, line in enumerate(src) if "Solve for the pressure by solving a single Newton iteration" in line]
+                if marks and tb.tb_lineno > marks[0]:
+                    site = "final-pressure-solve"
+            tb = tb.tb_next
+        return site
+    except Exception:
+        return "other"
 
 
 def run_solver(cfg, fault=None, num_iter=None, form="info", env=None) -> RunResult:
@@ -362,7 +383,13 @@ def run_solver(cfg, fault=None, num_iter=None, form="info", env=None) -> RunResu
     # RNG seam: pyamg's set-up reads numpy's global RNG; the simulator always decides its state
     np.random.seed(env.get("np_seed", 20221012) % 2**32)
     try:
-        obj = build(cfg, num_iter, form)
+        try:
+            obj = build(cfg, num_iter, form)
+        except Exception as e:  # a documented configuration the constructor rejects: no result either
+            rr.ret, rr.exc, rr.exc_injected, rr.warned = None, f"ctor:{type(e).__name__}", False, False
+            rr.seam = rr.obj = None
+            rr.clock = clock
+            return rr
         seam = SolveSeam(obj, None)
         import contextlib
         import io as _io
@@ -390,6 +417,7 @@ def run_solver(cfg, fault=None, num_iter=None, form="info", env=None) -> RunResu
                     rr.ret = None
                     rr.exc = f"{type(e).__name__}"
                     rr.exc_injected = bool(getattr(e, "_dsim_injected", False))
+                    rr.exc_site = _raise_site(e)
         rr.warned = any("abruptly stopped" in str(w.message) for w in wl)
         rr.seam, rr.obj, rr.clock = seam, obj, clock
         return rr
@@ -445,6 +473,11 @@ def check_result(cfg, rr: RunResult, out: Outcome, tag: str, step: int, fault=No
         out.counters["probe:non-finite-result"] += 1
         if info["converged"]:
             out.violate("C04.S", "converged-with-non-finite-result", step, tag=tag, config=cfg)
+        else:
+            # C04.N: a NaN / inf flux or distance is no iterate at all - neither a mass-conserving flux nor 'the last
+            # valid iterate' of a run whose inner step failed
+            mob = cfg["mobility_mode"] if cfg["mobility_mode"] in ("SUBCELL_BASED", "FACE_BASED") else "cell-based"
+            out.violate("C04.N", f"non-finite-result:{where}:{cfg['method'].split('-')[0]}:{mob}", step, tag=tag, config=cfg)
         return obs
 
     # ---- M: mass balance to linear-solver precision
@@ -474,7 +507,9 @@ def check_result(cfg, rr: RunResult, out: Outcome, tag: str, step: int, fault=No
         out.counters["probe:iterate-blow-up(anderson)"] += 1
     out.extra["max_imbalance_over_scale"] = max(out.extra.get("max_imbalance_over_scale", 0.0), imb / scale_m)
     if imb > tol_m and not stalled:
-        out.violate("C04.M", f"{cfg['formulation']}:{cfg['linear_solver']}:{where}", step, tag=tag, imbalance=imb, tolerance=tol_m,
+        k3 = (cfg["method"] == "newton" and cfg["formulation"] == "full" and cfg["l1_mode"] == "constant_cell_projection"
+              and cfg["mobility_mode"] in ("CELL_BASED", "CELL_BASED_HARMONIC") and cfg.get("long"))
+        out.violate("C04.M", f"{cfg['formulation']}:{cfg['linear_solver']}:{where}" + (":newton-cell-projection-long-run" if k3 else ""), step, tag=tag, imbalance=imb, tolerance=tol_m,
                     recorded_linear_residual=rmax, fault=fault, config=cfg)
 
     # ---- D: distance is the cost of exactly the returned flux
@@ -587,7 +622,7 @@ class C04Engine(Engine):
         i = seed % 1_000_003  # position in batch: stratify the first configurations
         methods = ["newton", "bregman", "bregman-adaptive"]
         method = methods[i % 3] if i < 36 else r.choice(methods)
-        formulation = ["pressure", "full"][(i // 3) % 2] if i < 36 else r.choice(["pressure", "pressure", "full"])
+        formulation = ["pressure", "full"][(i // 3) % 2] if i < 36 else r.choice(["pressure", "pressure", "full", "flux_reduced"])
         if formulation == "full":
             ls = "direct"
         else:
@@ -668,12 +703,36 @@ class C04Engine(Engine):
             cfg.pop("max_coarse", None)
             cfg.pop("weight", None)
             dim = 2
+        long_run = 52 <= i < 58 or substream(seed, "profile4").random() < 0.015
+        if long_run:
+            # long runs on a larger grid (tens of iterations, direct back-end, dense masses): ill-conditioning that
+            # builds up over the iteration (K3) only shows here; three sampled fault points instead of all of them
+            p4 = substream(seed, "profile4b")
+            cfg.update(shape=[p4.randint(9, 14), p4.randint(9, 14)], voxel_size=[p4.choice([0.05, 0.1, 1.0]), p4.choice([0.05, 0.1, 1.0])],
+                       method=p4.choice(["newton", "newton", "bregman"]), linear_solver="direct",
+                       formulation=["full", "pressure", "flux_reduced", "full", "full", "pressure"][i - 52] if 52 <= i < 58
+                       else p4.choice(["full", "full", "pressure", "flux_reduced"]),
+                       l1_mode=p4.choice(sorted(L1)) if not 52 <= i < 58 else ["constant_cell_projection", "constant_cell_projection",
+                                                                               "raviart_thomas", "constant_subcell_projection",
+                                                                               "constant_cell_projection", "raviart_thomas"][i - 52],
+                       mobility_mode=p4.choice(["CELL_BASED", "CELL_BASED", "CELL_BASED_HARMONIC", "CELL_BASED_ARITHMETIC"]),
+                       num_iter=p4.randint(25, 40), aa_depth=0, aa_restart=None,
+                       tol_residual=1e-300, tol_increment=1e-300, tol_distance=1e-300, long=True)
+            cfg["pair"] = {"kind": "dense", "id": p4.randint(0, 9999)}
+            for k in ("update_every", "weight", "max_coarse", "ls_options", "warm", "verbose", "L", "amg_default"):
+                cfg.pop(k, None)
+            dim = 2
         e = substream(seed, "env")
         env = {"tracemalloc": "real" if e.random() < 0.1 else "stub", "np_seed": e.randint(0, 2**31)}
         if e.random() < 0.5:
             env["clock_jumps"] = [[e.randint(0, 60), e.choice([-3600.0, -1.0, 0.0, 86400.0])] for _ in range(e.randint(1, 3))]
         case = {"engine": self.name, "seed": seed, "config": cfg, "faults": "all", "env": env,
                 "forms": substream(seed, "workload").random() < 0.35}
+        if long_run:
+            p4 = substream(seed, "profile4c")
+            case["faults"] = [{"site": p4.choice(SITES), "occurrence": p4.randint(1, cfg["num_iter"]),
+                               "exc": p4.choice(EXC_TYPES)} for _ in range(3)]
+            case["forms"] = False
         h = substream(seed, "schedule")
         if h.random() < 0.35:
             # a history: another solver object was built and used on a grid of the same shape earlier in the process
@@ -684,6 +743,19 @@ class C04Engine(Engine):
 
     # ------------------------------------------------------------------ execution
     def execute(self, case: dict) -> Outcome:
+        out = self._execute(case)
+        cfg = case["config"]
+        if cfg["formulation"] == "flux_reduced" and cfg["linear_solver"] in ("amg", "cg"):
+            # K4: the flux-reduced system is an indefinite saddle-point system (pressure + Lagrange multiplier); the
+            # library hands it to AMG / AMG-preconditioned CG all the same.  One culprit for whatever that produces
+            # (NaN results, failing set-ups, exceptions after a handled failure), so that the known finding covers
+            # this combination and nothing else.
+            for v in out.violations:
+                v["culprit"] = "flux_reduced-with-iterative-back-end"
+            out.counters["probe:flux-reduced-with-iterative-back-end"] += 1
+        return out
+
+    def _execute(self, case: dict) -> Outcome:
         out = Outcome()
         cfg = case["config"]
         env = case.get("env", {})
@@ -704,7 +776,14 @@ class C04Engine(Engine):
         out.sim_time += base.clock.presented
         out.counters["fault:clock-backward-jump"] += base.clock.backward
         if base.ret is None:
+            # C04.X: the statement promises a result for every pair, grid, solver and option of the quantifier (even a
+            # failing inner step yields a flagged result); a fault-free call that raises delivers none
             out.counters["probe:no-result(" + str(base.exc) + ")"] += 1
+            mob = cfg["mobility_mode"] if cfg["mobility_mode"] in ("SUBCELL_BASED", "FACE_BASED") else "cell-based"
+            who = cfg["formulation"] if str(base.exc).startswith("ctor:") else f"{cfg['method'].split('-')[0]}:{mob}"
+            if getattr(base, "exc_site", "other") == "final-pressure-solve":
+                who = "bregman:final-pressure-solve"  # K5: the pressure recovery behind the loop is not guarded
+            out.violate("C04.X", f"fault-free-call-raises:{base.exc}:{who}", step, config=cfg)
             out.event(kind="baseline", exc=base.exc)
             return out
         n = base.seam.entries
